@@ -73,6 +73,11 @@ def _gen_fluent(rng, o):
     """A small fluent program: source (optionally a generator) -> steps of map / map-with-yields / reduce / join."""
     nsrc = rng.choice([1, 2, 3, 3, 4, 5, 6, 7, 11, 12, 13])
     ky = _nout(rng, o)
+    # keep the lowered job small (the pure-python pre-scheduler is cubic in the size of a component): wide in one direction only
+    if nsrc >= 6 and ky > 2:
+        ky = rng.choice([1, 1, 2])
+    if ky >= 7 and nsrc > 3:
+        nsrc = rng.choice([1, 2, 3])
     steps = []
     depth = rng.randint(0, 3)
     dims = ["x"] + (["y"] if ky > 1 else [])
